@@ -27,7 +27,7 @@ ASSUMPTIONS = [
     "as C01 (no HP-based filters; third-party determinism trusted)",
     "the RL scheduler is limited to one session by the quantifier and takes no part in cuts",
 ]
-REQUIRED_COUNTERS = {"saving_folder_used_before_by_another_run": 20, "tiny_grid_cases": 5, "segmented_runs": 150, "restore_cuts": 100, "plain_cuts": 100, "cuts_before_stateful": 80, "restore_chains": 10}
+REQUIRED_COUNTERS = {"many_parameter_cases": 4, "saving_folder_used_before_by_another_run": 20, "tiny_grid_cases": 5, "segmented_runs": 150, "restore_cuts": 100, "plain_cuts": 100, "cuts_before_stateful": 80, "restore_chains": 10}
 REQUIRED_COUNTERS.update({f"cut_before_{k}": 1 for k in G.SAMPLER_KINDS})
 SHARDS = {"quick": 16, "thorough": 16}
 SHARD_WATCHDOG = {"quick": 1500, "thorough": 10800}
@@ -52,11 +52,14 @@ def run_case(desc, ctx):
     heavy = i % 3 == 0
     kinds = None if heavy else G.CHEAP + ["XGBoost"]
     tiny = i % 5 == 3   # a grid with about as many points as the run has rows: proposals collide with the history, de-duplication works hard
+    many = i % 6 == 1 and not heavy   # 11-13 parameters: column naming / ordering beyond a single digit on the restore path
     extreme = i % 7 == 5 and not heavy   # the model returns inf / 1e300-sized values: non-finite losses and huge series cross the checkpoint
     cfg = CG.gen_config(rng, kinds=kinds, n_samplers=int(rng.integers(2, 5)) if tiny else int(rng.integers(1, 5)), max_bs=2, scheduler=str(rng.choice(["list", "rr"])),
                         model=str(rng.choice(["inf", "huge"])) if extreme else "plain",
                         **({"loss_kinds": ["minkowski", "msm", "fourier"]} if extreme else {}),
-                        **({"max_points": 4, "max_params": 2} if tiny else {}))
+                        **({"max_points": 4, "max_params": 2} if tiny else ({"params": int(rng.integers(11, 14))} if many else {})))
+    if many and not tiny:
+        c["many_parameter_cases"] = 1
     if extreme:
         c["models_returning_nonfinite_or_huge"] = 1
     if tiny:
